@@ -28,6 +28,10 @@ def resolve_target(spec: str):
             fn = obj
             cells = dict(zip(fn.__code__.co_freevars, fn.__closure__ or ()))
             obj = cells[name].cell_contents
+        elif part == "<unwrap>":  # through functools.wraps / lru_cache layers, whatever their number (possibly none)
+            import inspect
+
+            obj = inspect.unwrap(obj)
         elif part.startswith("<const:"):
             # nested function code object cannot be instantiated without running the outer: unsupported here
             raise Unsupported("nested def targets are reached by verifying the enclosing function")
@@ -235,6 +239,14 @@ def verify_contract(c: Contract, registry: Dict[str, Contract], timeout_ms=core.
         covers = {"requires_sat": False, "normal_exit": 0, "exc_exit": 0}
 
         def body(p):
+            try:
+                return body_(p)
+            finally:
+                from .interp import restore_live_shared
+
+                restore_live_shared(p)
+
+        def body_(p):
             p.ghost["interp"] = I
             args = c.make_args()
             pre = c.requires(**_kw(args))
@@ -388,6 +400,8 @@ def check_strict_frame(c: Contract, I: Interp, p, args):
             key = ("global_write", ev[1][0], ev[1][1])
         elif ev[0] == "container_write":
             key = ("container_write", getattr(ev[1], "name", "?"), "")
+        elif ev[0] == "shared_container_write":
+            key = ("shared_container_write", ev[1], "")
         else:
             continue
         if key in seen:
